@@ -12,20 +12,20 @@ Lemma view_same : forall st st',
 Proof. intros st st' H1 H2 H3. unfold view. rewrite H1, H2, H3. reflexivity. Qed.
 
 Lemma view_fields : forall st st' c c',
-  acct_inv st -> find_client (c_id c) (st_clients st) = Some c ->
+  NoDup (map c_id (st_clients st)) -> find_client (c_id c) (st_clients st) = Some c ->
   c_id c' = c_id c -> c_oofs c' = c_oofs c -> c_lowners c' = c_lowners c ->
   st_clients st' = upd_client c' (st_clients st) -> st_pool st' = st_pool st -> st_nextlo st' = st_nextlo st ->
   view st' = view st.
 Proof.
   intros st st' c c' I Hf E1 E2 E3 H1 H2 H3. unfold view. rewrite H1, H2, H3. f_equal.
-  apply (vc_upd_same c' c); [exact (proj1 I)|rewrite E1; exact Hf|].
+  apply (vc_upd_same c' c); [exact I|rewrite E1; exact Hf|].
   unfold vc. rewrite E1, E2, E3. reflexivity.
 Qed.
 
 Lemma find_client_id : forall id cs c, find_client id cs = Some c -> c_id c = id.
 Proof. intros id cs c H. rewrite find_client_k in H. apply (kfind_key c_id) in H. exact H. Qed.
 
-Lemma hold_view : forall id st, acct_inv st -> view (hold id st) = view st.
+Lemma hold_view : forall id st, NoDup (map c_id (st_clients st)) -> view (hold id st) = view st.
 Proof.
   intros id st I. unfold hold. destruct (find_client id (st_clients st)) as [c|] eqn:Ef; [|reflexivity].
   pose proof (find_client_id _ _ _ Ef) as Hid. rewrite <- Hid in Ef.
@@ -33,7 +33,7 @@ Proof.
     eapply (view_fields st _ c (c_set_hold c (c_hold c + 1) (c_seen c))); try reflexivity; assumption.
 Qed.
 
-Lemma release_view : forall id st, acct_inv st -> view (release id st) = view st.
+Lemma release_view : forall id st, NoDup (map c_id (st_clients st)) -> view (release id st) = view st.
 Proof.
   intros id st I. unfold release. destruct (find_client id (st_clients st)) as [c|] eqn:Ef; [|reflexivity].
   pose proof (find_client_id _ _ _ Ef) as Hid. rewrite <- Hid in Ef.
@@ -43,7 +43,7 @@ Proof.
     |eapply (view_fields st _ c (c_set_hold c (N.pred (c_hold c)) (c_seen c)))]; try reflexivity; assumption.
 Qed.
 
-Lemma touch_view : forall id st, acct_inv st -> view (touch id st) = view st.
+Lemma touch_view : forall id st, NoDup (map c_id (st_clients st)) -> view (touch id st) = view st.
 Proof.
   intros id st I. unfold touch. destruct (find_client id (st_clients st)) as [c|] eqn:Ef; [|reflexivity].
   pose proof (find_client_id _ _ _ Ef) as Hid. rewrite <- Hid in Ef.
